@@ -400,7 +400,7 @@ def scenario(runner, programs, bindings, evals=1, warm=False):
         plain = oracle.solo(runner, programs, bindings, evals, state)
         for t, (src, b) in enumerate(zip(programs, bindings)):
             state.restore()
-            r, ex = trace(oracle.workload(runner, src, b, evals), keep)
+            r, ex = trace(oracle.workload(oracle.runners(runner, len(programs))[t], src, b, evals), keep)
             if r != plain[t]:
                 errors.append(f"thread {t}: outcome under tracing {r} differs from the untraced solo outcome {plain[t]}")
             written = {(a["ns"], a["name"]) for s in ex.steps for a in s["acc"] if a["kind"] == "W"}
